@@ -515,6 +515,26 @@ def wiring(rep):
     loops = [l for l in walk_local(il.node) if isinstance(l, ast.For) and any(x is c for x in ast.walk(l))]
     ok = bool(loops) and norm(loops[0].iter) == "self.mappings" and a[2] == norm(loops[0].target)
     rep.ob("O3.6", "SRC", il, ok, loops[0].iter if loops else c, "one gluing per mapping returned by the matcher")
+    # the mappings that are glued belong to THIS substrate and THIS rule in their concrete numbering: a mapping is a dict of node ids
+    from ..rules import provenance as PV
+    mp = rep.f(SR, "SynReactor.mappings")
+    mdefs = local_defs(mp.node)
+    stores = [n for n in walk_local(mp.node) if isinstance(n, ast.Assign) and any(norm(t) == "self._mappings" for t in n.targets)]
+    rep.need("SRC", len(stores), 1, "stores to self._mappings in SynReactor.mappings")
+    bad, und, n_roots = [], [], 0
+    for st in stores:
+        roots = PV.all_roots(mdefs, st.value)
+        n_roots += len(roots)
+        for r, cont, key in PV.persistent_lookups(mp, roots, mdefs):
+            verdict, why = PV.key_identifies_objects(rep.repo, mp, key, mdefs)
+            if verdict is False:
+                bad.append((r, f"taken from `{cont}`: {why}"))
+            elif verdict is None:
+                und.append((r, f"taken from `{cont}`: {why}"))
+    ok = False if bad else (None if und else True)
+    first = (bad or und or [(stores[0], "")])[0]
+    rep.ob("O3.6", "SRC", mp, ok, first[0], "the mappings are node-id dictionaries of this call's substrate and rule: they come from this call's search, or from a store whose key "
+           "pins the concrete objects" + (f" ({first[1]})" if first[1] else ""), {"stores": len(stores), "roots": n_roots}, node=first[0])
     ts = rep.f(SR, "SynReactor._to_smarts")
     defs = local_defs(ts.node)
     rets = [r for r in returns_of(ts.node) if isinstance(r.value, ast.JoinedStr)]
@@ -533,6 +553,56 @@ def wiring(rep):
         sides.append(idx)
     rep.ob("O3.6", "SRC", ts, sides == [(0,), (1,)], rets[0], "SMARTS is '<reactant side>>><product side>' of the glued ITS",
            {"sides": [list(s) if s else None for s in sides]})
+    # a glued graph that RDKit refuses to sanitise (impossible valence after the hydrogen bookkeeping) is dropped, not written: the writer is
+    # asked to sanitise, and whatever it is asked, a failure inside it comes back as None
+    from ..absval import eval_expr as _ev
+    IOC = "synkit/IO/chem_converter.py"
+    g2s = rep.f(IOC, "graph_to_smi")
+    wcalls = [c for c in walk_local(ts.node) if isinstance(c, ast.Call) and call_name(c) == "graph_to_smi"]
+    rep.need("SRC", len(wcalls), 2, "graph_to_smi calls in _to_smarts")
+    a = g2s.node.args
+    pos = [x.arg for x in a.posonlyargs + a.args]
+    dflt = dict(zip(pos[len(pos) - len(a.defaults):], a.defaults))
+    dflt.update({k.arg: v for k, v in zip(a.kwonlyargs, a.kw_defaults) if v is not None})
+    pm_g = parent_map(g2s.node)
+    for c in wcalls:
+        env, und = {}, False
+        for k_, v_ in dflt.items():
+            try:
+                env[k_] = _ev(v_, {})
+            except Undecided:
+                pass
+        for i, x in enumerate(c.args[1:], start=1):
+            if i < len(pos):
+                try:
+                    env[pos[i]] = _ev(x, {})
+                except Undecided:
+                    env.pop(pos[i], None)
+        for k in c.keywords:
+            if k.arg is None:
+                und = True
+                continue
+            try:
+                env[k.arg] = _ev(k.value, {})
+            except Undecided:
+                env.pop(k.arg, None)
+        ok = None if und else (env.get("sanitize", True) is True)
+        rep.ob("O3.6", "SRC", ts, ok, c, "the writer is asked to sanitise the glued side", {"bound": {k_: repr(v_) for k_, v_ in env.items() if k_ != pos[0]}}, node=c)
+        # returns inside exception handlers of the writer, under this call's options
+        for h in [h for t_ in walk_local(g2s.node) if isinstance(t_, ast.Try) for h in t_.handlers]:
+            for r_ in [x for st_ in h.body for x in ast.walk(st_) if isinstance(x, ast.Return)]:
+                if r_.value is None or is_const(r_.value, None):
+                    continue
+                reach = True
+                for t_, sense in guards_of(pm_g, r_, g2s.node):
+                    try:
+                        if bool(_ev(t_, dict(env))) != sense:
+                            reach = False
+                    except Undecided:
+                        reach = None if reach else reach
+                rep.ob("O3.6", "SRC", g2s, False if reach else (None if reach is None else True), r_,
+                       "a graph the writer could not sanitise comes back as None (here: a string is returned from the failure handler under the options "
+                       f"{ {k_: v_ for k_, v_ in env.items() if k_ != pos[0]} }): products with impossible valences are listed", node=r_)
 
 
 MUTANTS = [
